@@ -21,8 +21,8 @@ func init() {
 	core.Register(&core.Prop{
 		ID:         "C07",
 		Title:      "Backslash escape codecs round-trip and parse any input safely",
-		Quick:      40000,
-		Thorough:   600000,
+		Quick:      10000,
+		Thorough:   300000,
 		Gen:        gen,
 		Corpus:     corpus,
 		Impl:       impl,
@@ -1035,7 +1035,7 @@ func genLayout(r *core.Rand, k string) core.Case {
 func gen(r *core.Rand, tier string) core.Case {
 	k := codecs[r.Intn(4)]
 	// large stream: ~0.6 % of the cases (a few hundred in quick), 2 % in thorough
-	if (tier == "thorough" && r.Chance(2)) || (tier != "thorough" && r.Intn(1000) < 6) {
+	if (tier == "thorough" && r.Chance(2)) || (tier != "thorough" && r.Intn(1000) < 12) {
 		return genLarge(r, k, tier)
 	}
 	lines := []string{header(k)}
@@ -1044,7 +1044,7 @@ func gen(r *core.Rand, tier string) core.Case {
 	}
 	switch r.Pick(22, 22, 16, 32, 8) {
 	case 0: // (i) Format of random data
-		n := r.Range(1, 4)
+		n := r.Range(2, 8)
 		for j := 0; j < n; j++ {
 			d := hx(randData(r, k, 24))
 			switch r.Pick(1, 1, 2) {
@@ -1058,7 +1058,7 @@ func gen(r *core.Rand, tier string) core.Case {
 		}
 		return core.Case{Lines: lines, Tag: "format"}
 	case 1: // (ii) Parse of (reference-)formatted output
-		n := r.Range(1, 3)
+		n := r.Range(2, 6)
 		for j := 0; j < n; j++ {
 			f := lowerHex(r, k, refFormat(k, randData(r, k, 12)))
 			switch r.Pick(1, 1, 1) {
@@ -1072,7 +1072,7 @@ func gen(r *core.Rand, tier string) core.Case {
 		}
 		return core.Case{Lines: lines, Tag: "parse-formatted"}
 	case 2: // well-formed escapes embedded in backslash-free text
-		n := r.Range(1, 3)
+		n := r.Range(2, 6)
 		for j := 0; j < n; j++ {
 			var s []byte
 			parts := r.Range(1, 4)
